@@ -137,7 +137,7 @@ fn main() {
 }
 
 fn run(args: &Args, rep: &mut Report) {
-    MODEL_CAP_S.store(if args.thorough() { 60 } else { 30 }, Ordering::SeqCst);
+    MODEL_CAP_S.store(if args.thorough() { 120 } else { 120 }, Ordering::SeqCst);
     match args.prop.as_str() {
         "C08" => {
             set_phase_budget(if args.thorough() { 600 } else { 120 });
